@@ -88,7 +88,8 @@ class PressureControlComponent(BranchWOInternalsComponent):
         pc_pit = super().create_pit_branch_entries(net, branch_pit)
         pc_pit[net[cls.table_name()].control_active.values, BRANCH_TYPE] = PC_BRANCH
         pc_pit[:, LC] = net[cls.table_name()].loss_coefficient.values
-        pc_pit[:, DIRECTED] = True
+        # only a controlling unit is a one-way element, otherwise it behaves like an open valve
+        pc_pit[:, DIRECTED] = net[cls.table_name()].control_active.values
 
 
     @classmethod
